@@ -18,6 +18,7 @@ from mc.codec import show
 
 PROPERTY = 'C12'
 ASSUMPTIONS = [
+    'a Series whose first two rows share one timestamp is run through every method except fnna / ffill_na / ffill_0 (their "leading" and "after the last valid observation" are label based and ambiguous for equal labels)',
     'inputs are float64 vectors / 2-column frames with distinct non-NaN cells; Series/DataFrame carry a daily DatetimeIndex '
     '(the empty ones pd.DatetimeIndex([])), arrays are writeable C-contiguous float64',
     "methods: 'ffill', 'bfill', 'backfill', 0, 5.5, ['ffill','bfill'], ['bfill','ffill'], ['ffill',0], 'nona', 'fnna', "
@@ -45,6 +46,11 @@ def _menu():
     m.append(('ffill+bfill', ['ffill', 'bfill'], LIMITS))
     m.append(('bfill+ffill', ['bfill', 'ffill'], LIMITS))
     m.append(('ffill+0', ['ffill', 0], [None]))
+    # the same method twice is NOT the method once when a limit applies: each application reaches `limit` positions further
+    m.append(('ffill+ffill', ['ffill', 'ffill'], LIMITS))
+    m.append(('bfill+bfill', ['bfill', 'bfill'], LIMITS))
+    m.append(('ffill+bfill+ffill', ['ffill', 'bfill', 'ffill'], LIMITS))
+    m.append(('ffill+bfill tuple', ('ffill', 'bfill'), LIMITS))
     m.append(('nona', 'nona', [None]))
     m.append(('fnna', 'fnna', [None]))
     m.append(('ffill_na', 'ffill_na', LIMITS))
@@ -185,9 +191,11 @@ class Input:
         self.n = n
         self.ncol = len(cols)
         self.names = ['a', 'b'][:self.ncol]
-        self.is_pd = kind in ('series', 'df1', 'df2')
-        self.ndim = 1 if kind in ('series', 'arr1') else 2
+        self.is_pd = kind in ('series', 'series_dup', 'df1', 'df2')
+        self.ndim = 1 if kind in ('series', 'series_dup', 'arr1') else 2
         self.stamps = [START + pd.Timedelta(days=i) for i in range(n)]
+        if kind == 'series_dup' and n >= 2:
+            self.stamps[1] = self.stamps[0]          # two observations carrying one timestamp: rows are positions, not labels
 
     def _index(self):
         return pd.DatetimeIndex(list(self.stamps)) if self.n else pd.DatetimeIndex([])
@@ -200,7 +208,7 @@ class Input:
 
     def build(self):
         raw = self._raw()
-        if self.kind == 'series':
+        if self.kind in ('series', 'series_dup'):
             return pd.Series(raw, index=self._index(), dtype=float)
         if self.kind in ('df1', 'df2'):
             return pd.DataFrame({nm: raw[:, j].copy() for j, nm in enumerate(self.names)}, index=self._index(),
@@ -351,6 +359,8 @@ def check(case):
             INF = float('inf')
             cols = [[None if case['mask'][i] else (INF, -INF, 10.0 * i + 1)[i % 3] for i in range(n)]]
         pairs = [('series', 'arr1'), ('df1', 'arr21')]
+        if 2 <= n <= 5 and not case.get('vals'):
+            pairs.append(('series_dup', 'arr1'))
     else:
         n = len(case['mask'])
         cols = [[None if case['mask'][i][j] else 10.0 * (2 * i + j) + 1 for i in range(n)] for j in range(2)]
@@ -363,7 +373,7 @@ def check(case):
 
     calls = []                                               # (name, steps, limit, callable)
     for name, method, limits in MENU:
-        steps = method if isinstance(method, list) else [method]
+        steps = list(method) if isinstance(method, (list, tuple)) else [method]
         for limit in limits:
             if limit is None:
                 fn = lambda x, method=method: df_fillna(x, list(method) if isinstance(method, list) else method)
@@ -376,6 +386,8 @@ def check(case):
         P = Input(pk, cols, n)
         A = Input(ak, cols, n)
         for name, steps, limit, fn, spell in calls:
+            if pk == 'series_dup' and any(st in ('fnna', 'ffill_na', 'ffill_0') for st in steps):
+                continue        # 'leading' / 'after the last valid observation' are decided by LABEL there: ambiguous when two rows share a timestamp
             kept, ecols = model(cols, n, (name, steps, limit))
             # ---- pandas object
             pd_ok = None
@@ -420,6 +432,8 @@ def check(case):
                     out.cls('%s:unchanged' % name)
         # ---- nona with an edge: argument untouched, only all-NaN rows may go
         for edge in (1, -1):
+            if pk == 'series_dup':
+                break                      # edge cuts by label (df_slice): ambiguous for equal labels
             for inp in (P, A):
                 out.sub()
                 name = 'nona(edge=%d)' % edge
